@@ -573,7 +573,7 @@ def items(tier, seed):
                         weights=ws, starts=starts, max_depth=depth))
     # the expensive searches first so that the pool balances
     out.sort(key=lambda i: -(i["win"] * (0 if i["thr"] in (0, NEVER) else 1)))
-    return loop_items(tier, seed) + out
+    return out + loop_items(tier, seed)
 
 
 def work(item, col):
